@@ -110,6 +110,11 @@ PROPS = {
         "Machine-checked proof over the hand-written model for all configurations and oracle answers; tied to the code by the enumerated product (configured attempts incl. 0 and non-integers x succeeding attempt x cancellation point x stream failures) and generated inbound byte streams of every message kind with truncations and garbage.",
         "libp2p host / stream behaviour is scripted (oracle), real time is abstracted: 'cancelled during the k-th back-off' is an input realised with a back-off long enough for the cancelled context to win, and promptness is judged only if a late return repeats on an idle machine; whether inbound bytes form a message is decided by the codec (C12's subject): the codec rejects trailing bytes, so a stream carrying more than one message is malformed as a whole; a protocol the message cannot be converted to returns an error without resetting or closing the stream (modelled as such, noted in DESIGN.md)",
         corr=["corr/NetCorr.v"]),
+    "C13": P("props/C13.v", ["migrate"],
+        "the record migration is TRANSLATED on every run from migrations.go (struct ChannelStateV2 -> record chan2, MigrateChannelState2To3 -> function migrate_2_3; unknown shapes refused) and the Coq theorems are about that function: all 21 shared fields preserved, status / pause-flag mapping, no field unassigned or unread; the migration run and readiness gate are a hand-written model of go-ds-versioning with theorems (all records migrated, failure changes nothing, any number of restarts idempotent, operations refused until ready, readiness announced once per listener); the real manager is started on generated version-2 datastores and compared record by record, then driven and restarted",
+        "Machine-checked proof about the regenerated migration function for every version-2 record, and about the store-level model for every store; the model is tied to the code by starting the real manager on datastores written with the repository's ChannelStateV2 codec (every status, boundary values), with direct field-by-field monitors.",
+        "go-ds-versioning (migration run, version key, readiness gate) is modelled, not verified; the version-2 records are encoded with the repository's own cbor-gen codec for ChannelStateV2 (the decoder used by the migration is its inverse; codec correctness is C12's subject); the legacy un-versioned store layout and undecodable version-2 records (which fail the whole migration) are out of the property's scope",
+        corr=["corr/MigrateCorr.v"]),
 }
 
 NOT_APPLICABLE = {}
